@@ -764,7 +764,15 @@ func (g *gen) faultExpr(ty byte) *Expr {
 	case 6:
 		return &Expr{K: eNull}
 	case 7: // empty / undefined integer ranges
-		switch g.tp.Int(0, 4, "domain") {
+		switch g.tp.Int(0, 8, "domain") {
+		case 5: // exactly 2^63 integers: the count does not fit an int
+			return &Expr{K: eCall, S: "random_range", A: []*Expr{numLit(-9223372036854775808), numLit(-1)}}
+		case 6:
+			return &Expr{K: eCall, S: "random_range", A: []*Expr{numLit(-9223372036854775808), numLit(0)}}
+		case 7:
+			return &Expr{K: eCall, S: "random_range", A: []*Expr{numLit(float64(g.tp.Int(-2, 2, "lo"))), numLit(9223372036854775807)}}
+		case 8:
+			return &Expr{K: eCall, S: "dice", A: []*Expr{numLit(9223372036854775807)}}
 		case 0:
 			return &Expr{K: eCall, S: "dice", A: []*Expr{{K: eNum, N: 0}}}
 		case 1:
